@@ -13,7 +13,9 @@ at the end) and returns the record of the LAST call.
 """
 import logging
 import math
+import signal
 import sys
+import threading
 
 AS = 16                 # address space in units (SocAlloc.tla)
 AUTO = -1
@@ -54,15 +56,37 @@ def _reset_tracer():
     L.tracer.name_to_idx.clear()
 
 
+class HarnessHang(BaseException):
+    """a call into LiteX did not return within CALL_TIMEOUT seconds"""
+
+
+CALL_TIMEOUT = 3.0
+
+
+def _alarm(signum, frame):
+    raise HarnessHang()
+
+
 def _call(fn):
     """-> (outcome, value): 'ok' or the exception class name.  SoCError.__init__ sets
-    sys.stderr = None; restore it."""
+    sys.stderr = None; restore it.  A call that does not return (an allocator looping for ever)
+    is interrupted and recorded with outcome 'HarnessHang'; the state it left behind is still
+    projected and judged."""
     err = sys.stderr
+    timed = threading.current_thread() is threading.main_thread()
+    if timed:
+        old = signal.signal(signal.SIGALRM, _alarm)
+        signal.setitimer(signal.ITIMER_REAL, CALL_TIMEOUT)
     try:
         return "ok", fn()
+    except HarnessHang:
+        return "HarnessHang", None
     except Exception as ex:            # noqa: any exception is 'rejected with an error'
         return type(ex).__name__, None
     finally:
+        if timed:
+            signal.setitimer(signal.ITIMER_REAL, 0)
+            signal.signal(signal.SIGALRM, old)
         sys.stderr = err
 
 
@@ -364,12 +388,15 @@ def plat_visit(cfg, prefix):
             raise ValueError("unknown platform op %r" % (op,))
         if out == "ok" and ret is None:
             out = "none"
-        for _, o in cm.matched:           # ids in order of granting
+        for _, o in cm.matched[:40]:      # ids in order of granting
             oid(o)
     retd = describe(ret) if out == "ok" else {"t": "none", "ids": [], "sub": ""}
-    av = [{"n": r[0], "u": r[1]} for r in cm.available]
-    mt = [{"n": r[0], "u": r[1], "id": oid(o)} for r, o in cm.matched]
+    cap = 40            # a runaway allocator is cut short; 40 entries are more than the universe has
+    av = [{"n": r[0], "u": r[1]} for r in cm.available[:cap]]
+    mt = [{"n": r[0], "u": r[1], "id": oid(o)} for r, o in cm.matched[:cap]]
     pins = []
+    if len(cm.matched) > cap:
+        del cm.matched[cap:]
     o2, sc = _call(cm.get_sig_constraints)
     if o2 == "ok":
         for sig, pp, others, (rn, ru, rs) in sc:
